@@ -314,6 +314,9 @@ def obligations(tier):
     for o in tw:
         o.name = "tierwise-" + o.name
     obs += tw
+    from harness import fp_kernels
+
+    obs += fp_kernels.c12_obligations(tier)
     return obs
 
 
